@@ -132,16 +132,45 @@ func main() {
 	record(Case{Part: "eval-special"}, "eval-special", false)
 
 	// ---- part 1
-	capObjs := r.Pick(2, 3)
-	maxDepth := r.Pick(5, 6)
-	deadline := float64(r.Pick(240, 560)) // safety net only; the bounds are chosen to finish well before
-	st := explore(r, maxDepth, capObjs, r.Thorough(), deadline)
-
+	// quick: one bound. thorough: two larger bounds (one level deeper on a
+	// two-value alphabet; one more object and the full value alphabet at the quick
+	// depth). Each is a separate exhaustive search with its own visited set; the
+	// object cap is part of the system explored.
+	type bound struct {
+		Name   string   `json:"name"`
+		Depth  int      `json:"depth"`
+		Cap    int      `json:"max_compiled_objects"`
+		Values []string `json:"values"`
+	}
+	bounds := []bound{{"depth5/cap2/4values", 5, 2, []string{"nil", "1", "s", "arr"}}}
+	if r.Thorough() {
+		// sized to finish exhaustively in < 10 min even with about one effective
+		// core (measured ~340 core-seconds in total); cheapest first
+		bounds = []bound{
+			{"depth6/cap2/2values", 6, 2, []string{"nil", "arr"}},
+			{"depth5/cap3/5values", 5, 3, []string{"nil", "1", "s", "arr", "map"}},
+		}
+	}
+	deadline := float64(r.Pick(240, 540)) // safety net only; the bounds are chosen to finish well before
+	var st histStats
+	perBound := []map[string]interface{}{}
+	for _, b := range bounds {
+		t0 := r.Elapsed().Seconds()
+		s1 := explore(r, b.Depth, b.Cap, b.Values, deadline)
+		st.states += s1.states
+		st.nontrivial += s1.nontrivial
+		st.validated += s1.validated
+		st.evaluations += s1.evaluations
+		if s1.depth > st.depth {
+			st.depth = s1.depth
+		}
+		perBound = append(perBound, map[string]interface{}{"bound": b, "depth_reached": s1.depth,
+			"new_states_per_depth": s1.perDepth, "frontier_expanded_per_depth": s1.frontier,
+			"states": s1.states, "nontrivial": s1.nontrivial, "transitions_validated": s1.validated,
+			"wall_s": r.Elapsed().Seconds() - t0})
+	}
 	r.Set("history_depth_reached", st.depth)
-	r.Set("history_depth_bound", maxDepth)
-	r.Set("history_new_states_per_depth", st.perDepth)
-	r.Set("history_frontier_expanded_per_depth", st.frontier)
-	r.Set("history_max_compiled_objects", capObjs)
+	r.Set("history_bounds", perBound)
 	var srcs []string
 	for _, s := range scripts {
 		srcs = append(srcs, s.Src)
@@ -151,8 +180,8 @@ func main() {
 		"script_ops":   "Add(n,v) Remove(n) Compile Run",
 		"compiled_ops": "Run RunContext(background) Set(n,v) Get(n) GetAll IsDefined(n) Clone",
 		"names":        opNames,
-		"values":       valsFor(0, r.Thorough()),
-		"values_note":  "the map value is used in the thorough tier only and not with the script `a[0] = 7`",
+		"values":       "per bound, see history_bounds; Go values nil, 1 (int), \"s\", []interface{}{1}, map[string]interface{}{\"k\": 2}",
+		"values_note":  "the map value is not used with the script `a[0] = 7`",
 	})
 	r.Set("part2_go_values", len(gvs))
 	r.Set("part3_values", len(V))
@@ -164,7 +193,7 @@ func main() {
 	r.Count("part23-cases", distinct.Len())
 	r.Assume("part 1: Script.Compile hands the Script's variable objects to the Compiled by reference (Script.Add converts once; the docs are silent on copying), so a mutable container is shared between the Script and the objects compiled from it; only Clone is documented to copy. The model follows that reading; a Compile that copied would be reported and need a model update")
 	r.Assume("part 1: the Script's variable table has no accessor; the harness reads the unexported field `variables` to observe it in every state (falls back to observation through later Compile calls if the field is renamed)")
-	r.Assume("part 2: the way back (ToInterface / Variable.Value) has no table of its own in the docs; the expectation is the inverse of the documented Go->Tengo table under the property's normalisation (int kinds -> int64, byte/rune -> rune, Object containers -> interface{} containers, immutable -> mutable). The message of an error read back from an Error object is not documented and not compared")
+	r.Assume("part 2: the way back (ToInterface / Variable.Value) has no table of its own in the docs; the expectation is the inverse of the documented Go->Tengo table under the property's normalisation (int kinds -> int64, byte/rune -> rune, Object containers -> interface{} containers, immutable -> mutable). For a Go error handed in (direct or nested) the message read back must equal the original message (property: 'error to its message'; signature roundtrip/error-message); the message of an error read back from an Error object that did not come from a Go error is not documented and not compared")
 	r.Assume("part 3: cells the coercion table does not fix (String() of float/array/map/error beyond its documented shape, Int() of a float outside the int64 range, every accessor on immutable-array/immutable-map/function values, which are not rows of the table) are checked for 'no panic' only")
 	r.Finish(report.Coverage{
 		States:      st.states + distinct.Len(),
